@@ -34,7 +34,7 @@ LOCWORDS = ["about", "a-propos", "ueber", "tungkol", "tietoja", "sobre", "chi-si
             "haku", "cerca", "buscar"]
 VALUES = ["42", "7", "x", "id", "a", "rest", "john", "é", "日本語", "v1.2", "page"]
 PNAMES = ["id", "a", "b", "x", "page"]
-QUERIES = ["a=1&b=2", "x=/fr/y", "q=fr"]
+QUERIES = ["a=1&b=2", "x=/fr/y", "q=fr", "tag=x&sort=asc&tag=y", "debug"]
 HASHES = ["top", "/fr", "s-1"]
 
 DIMS = {
